@@ -65,6 +65,9 @@ fn fill_into<G: Rng + ?Sized>(r: &mut Random<G>, bg: u8, off: usize, elem: &str,
 		"u128" => typed!(u128),
 		"a3u8" => typed!([u8; 3]),
 		"a5u32" => typed!([u32; 5]),
+		// zero-sized elements: a non-empty slice of no bytes
+		"z0" => typed!([u8; 0]),
+		"unit" => typed!(()),
 		_ => Err(Bad),
 	}
 }
@@ -72,6 +75,10 @@ fn fill_into<G: Rng + ?Sized>(r: &mut Random<G>, bg: u8, off: usize, elem: &str,
 fn random_bytes_of<G: Rng + ?Sized>(r: &mut Random<G>, shape: &str) -> R<Vec<u8>> {
 	Ok(match shape {
 		"rb0" => r.random_bytes::<[u8; 0]>().to_vec(),
+		"rbunit" => {
+			let _: () = r.random_bytes::<()>();
+			Vec::new()
+		}
 		"rb1" => r.random_bytes::<[u8; 1]>().to_vec(),
 		"rb3" => r.random_bytes::<[u8; 3]>().to_vec(),
 		"rb2" => r.random_bytes::<u16>().to_le_bytes().to_vec(),
